@@ -11,6 +11,7 @@
 #include "ops_c02.c"
 #include "ops_c10.c"
 #include "ops_c08.c"
+#include "ops_c06.c"
 
 static void on_alarm(int sig)
 {
@@ -38,6 +39,7 @@ int main(void)
     if (!done) done = dispatch_c02(&t);
     if (!done) done = dispatch_c10(&t);
     if (!done) done = dispatch_c08(&t);
+    if (!done) done = dispatch_c06(&t);
     if (!done) printf("R skip\n");
     printf("E\n");      /* end of this op: everything before a crash belongs to the op in flight */
     fflush(stdout);
